@@ -58,3 +58,21 @@ func VerifAudioMetaClock() {
 	}
 	symapi.Reach("end")
 }
+
+// VerifVideoCodecNames (C02 / C15): every spelling of the codec name the SDP parser accepts
+// (h264, H264, h265, H265, hevc, HEVC) ends as the canonical name the stream uses to pick
+// its parameter-set / GOP cache and its muxers ("H264" or "H265").
+func VerifVideoCodecNames() {
+	names := []string{"h264", "H264", "h265", "H265", "hevc", "HEVC"}
+	k := symapi.Choose("name", len(names))
+	video := &codec.VideoMeta{Codec: names[k]}
+	m := &sdp.Format{Payload: 96, Name: names[k], ClockRate: 90000, Params: []string{"packetization-mode=1"}}
+	parseVideoMeta(m, video)
+	want := "H264"
+	if k >= 2 {
+		want = "H265"
+	}
+	symapi.Assert(video.Codec == want, "codec-name-canonical-for-every-accepted-spelling")
+	symapi.Assert(video.ClockRate == 90000, "clock-rate-kept")
+	symapi.Reach("end")
+}
